@@ -27,7 +27,7 @@ class C11(CheckDef):
                   ('2/1/6;0/2', {'active': 1}, 800, 'random'), ('4/0;6/0/4', {'active': 0}, 600, 'pct'),
                   ('%s/%s/%s/%s' % ((ALL,) * 4), {'active': 0}, 800, 'random'),
                   # two overlapping reset() calls against a re-activation and a waiter (the unlock / trigger / lock loop of reset)
-                  ('6/6/0/2', {'active': 1}, 1200, 'random'), ('6/6;1/0;2', {'active': 1}, 600, 'pct')],
+                  ('6/6/0/2', {'active': 1}, 1200, 'random'), ('2/1', {'active': 1}, 2000, 'pb2'), ('0/4/6', {'active': 0}, 3000, 'pb1'), ('6/6;1/0;2', {'active': 1}, 600, 'pct')],
         'thorough': [('0;1/2;4/6/3;5', {'active': 0}, 15000, 'random'), ('%s;%s/%s;%s/0,1,6,7,8;0,1,6,7,8' % ((ALL,) * 4), {'active': 1}, 25000, 'random'),
                      ('2/1/6;0/2', {'active': 1}, 15000, 'random'), ('4/0;6/0/4', {'active': 0}, 10000, 'pct'),
                      ('%s/%s/%s/%s' % ((ALL,) * 4), {'active': 0}, 25000, 'random'),
